@@ -395,6 +395,9 @@ class File(resource.Resource, filepath.FilePath[str]):
                 # both is invalid.
                 raise ValueError(f"Invalid Byte-Range: {byteRange!r}")
             parsedRanges.append((start, end))
+        if not parsedRanges:
+            # A Range header must contain at least one byte range.
+            raise ValueError("Missing Byte-Range")
         return parsedRanges
 
     def _rangeToOffsetAndSize(self, start, end):
